@@ -34,3 +34,15 @@ func VerifSmokeSym() {
 	verifAssert((c1 < 0) == (a < b), "smoke/compare-agrees-with-int-order")
 	verifCover("smoke/end")
 }
+
+func VerifSmokeYaml() {
+	doc := vYaml("# lead\na: [3, 1, 2] # lc\nb: &x {c: hi}\nd: *x\n")
+	res, err := vEval(vParse(".a | sort"), doc)
+	verifAssert(err == nil && res.Len() == 1, "smoke/yaml-eval")
+	out, err2 := vToYaml(res.Front().Value.(*CandidateNode))
+	verifAssert(err2 == nil, "smoke/yaml-encode")
+	verifObserve("out", out)
+	whole, _ := vToYaml(doc)
+	verifObserve("whole", whole)
+	verifCover("smoke/end")
+}
